@@ -328,12 +328,17 @@ package parser
 
 //@ func (p *Parser) parsePoryswitchTextCases
 //@   include ParseFrame
+//@   ensures [C12:same-keys] result2 == nil ==> (result0 != nil && result1 != nil && (forall key string :: {indom(result0, key)} {indom(result1, key)} indom(result0, key) == indom(result1, key)))
+//@   loopinv [C12:same-keys-inv] textCases != nil && textStringTypeCases != nil && fresh(textCases) && fresh(textStringTypeCases) && (forall key string :: {indom(textCases, key)} {indom(textStringTypeCases, key)} indom(textCases, key) == indom(textStringTypeCases, key))
 //@   ensures [C20:stack-balanced] result2 == nil ==> (SameStack(p.breakStack, old(p.breakStack)) && SameStack(p.continueStack, old(p.continueStack)))
 //@   loopinv [C20:stack-balanced-inv] SameStack(p.breakStack, old(p.breakStack)) && SameStack(p.continueStack, old(p.continueStack))
 //@ end
 
 //@ func (p *Parser) parsePoryswitchTextStatement
 //@   include ParseFrame
+//@   exit [C12:select-text] result2 == nil ==> (indom(cases, switchValue) ? (result0 == cases[switchValue] && result1 == strTypeCases[switchValue])
+//@       : (indom(cases, "_") ? (result0 == cases["_"] && result1 == strTypeCases["_"]) : (result0 == "" && result1 == "")))
+//@   exit [C12:no-case] (result2 == nil && p.enableEnvironmentErrors) ==> (indom(cases, switchValue) || indom(cases, "_"))
 //@   ensures [C20:stack-balanced] result2 == nil ==> (SameStack(p.breakStack, old(p.breakStack)) && SameStack(p.continueStack, old(p.continueStack)))
 //@   loopinv [C20:stack-balanced-inv] SameStack(p.breakStack, old(p.breakStack)) && SameStack(p.continueStack, old(p.continueStack))
 //@ end
@@ -361,6 +366,8 @@ package parser
 
 //@ func (p *Parser) parsePoryswitchListStatement
 //@   include ParseFrame
+//@   exit [C12:select] result1 == nil ==> (indom(cases, switchValue) ? result0 == cases[switchValue] : (indom(cases, "_") ? result0 == cases["_"] : len(result0) == 0))
+//@   exit [C12:no-case] (result1 == nil && p.enableEnvironmentErrors) ==> (indom(cases, switchValue) || indom(cases, "_"))
 //@   fnparam parseFunc implements ListParserFn
 //@   ensures [C20:stack-balanced] result1 == nil ==> (SameStack(p.breakStack, old(p.breakStack)) && SameStack(p.continueStack, old(p.continueStack)))
 //@   loopinv [C20:stack-balanced-inv] SameStack(p.breakStack, old(p.breakStack)) && SameStack(p.continueStack, old(p.continueStack))
@@ -497,6 +504,9 @@ package parser
 
 //@ func (p *Parser) parsePoryswitchStatement
 //@   include ParseFrame
+//@   exit [C12:select-stmts] result2 == nil ==> (indom(cases, switchValue) ? result0 == cases[switchValue] : (indom(cases, "_") ? result0 == cases["_"] : len(result0) == 0))
+//@   exit [C12:select-imp] result2 == nil ==> (indom(caseImpData, switchValue) ? result1 == caseImpData[switchValue] : (indom(caseImpData, "_") ? result1 == caseImpData["_"] : result1 == nil))
+//@   exit [C12:no-case] (result2 == nil && p.enableEnvironmentErrors) ==> (indom(cases, switchValue) || indom(cases, "_"))
 //@   ensures [C06:slot] result2 == nil ==> (ImpOK(result1) && (result1 == nil || fresh(result1)))
 //@   ensures [C20:stack-balanced] result2 == nil ==> (SameStack(p.breakStack, old(p.breakStack)) && SameStack(p.continueStack, old(p.continueStack)))
 //@   loopinv [C20:stack-balanced-inv] SameStack(p.breakStack, old(p.breakStack)) && SameStack(p.continueStack, old(p.continueStack))
